@@ -140,11 +140,18 @@ func (s *Server) ServeHTTP(w http.ResponseWriter, r *http.Request) {
 
 	transport := s.getTransport(r)
 	if transport == nil {
+		writeContentType(w, r)
 		sendErrorf(w, http.StatusBadRequest, "transport not supported")
 		return
 	}
 
 	transport.Do(w, r, s.exec)
+}
+
+// writeContentType labels a response written by the server itself (no transport took the
+// request) with the Content-Type negotiated from the request's Accept header.
+func writeContentType(w http.ResponseWriter, r *http.Request) {
+	transport.WriteContentType(w, r)
 }
 
 func sendError(w http.ResponseWriter, code int, errors ...*gqlerror.Error) {
